@@ -209,7 +209,7 @@ func (a *adapter) Data(data []byte, streamEnded bool) error {
 			}
 			a.state = readingMessageData
 		case readingMessageData:
-			if uint32(a.buffer.Len()) < a.length {
+			if uint64(a.buffer.Len()) < uint64(a.length) {
 				return nil
 			}
 			data := make([]byte, a.length)
